@@ -533,3 +533,88 @@ Theorem C05_no_mutable_package_state :
   StateInventory.rg_mutated g = false /\ StateInventory.rg_escapes g = false.
 Proof. apply StateInventory.pkg_state_ok_spec. vm_compute. reflexivity. Qed.
 Print Assumptions C05_no_mutable_package_state.
+
+(** Lock-time opcodes (round 8): with their flag, before Genesis and with a transaction, OP_CHECKLOCKTIMEVERIFY and
+    OP_CHECKSEQUENCEVERIFY are exactly BIP65 / BIP112 as stated over the integers (spec/LockTimeSpec.v) - for EVERY lock
+    time, version and sequence number (the whole unsigned 32-bit range: no field is read through a narrower or a
+    signed type) and every operand of up to five bytes (nothing is truncated to 32 bits before it is compared);
+    otherwise they are upgradable NOPs. *)
+From GoBT Require spec.LockTimeSpec proofs.LockTimeProofs model.FlagOptions.
+Theorem C05_cltv_is_bip65 : forall so c p idx s t rest,
+  p_real p = true -> p_val p = OP_CLTV -> ds s = t :: rest ->
+  has_flag c F_CLTV = true -> after_genesis c = false -> c_has_tx c = true ->
+  exec_handler so c p idx s =
+    match make_num t 5 (has_flag c F_MINIMALDATA) with
+    | NumOk z => if LockTimeSpec.bip65_ok (c_tx_lock c) (c_in_seq c) z then OOk s else OErr
+    | _ => OErr
+    end.
+Proof. exact LockTimeProofs.cltv_is_bip65. Qed.
+Print Assumptions C05_cltv_is_bip65.
+Theorem C05_csv_is_bip112 : forall so c p idx s t rest,
+  p_real p = true -> p_val p = OP_CSV -> ds s = t :: rest ->
+  has_flag c F_CSV = true -> after_genesis c = false -> c_has_tx c = true ->
+  exec_handler so c p idx s =
+    match make_num t 5 (has_flag c F_MINIMALDATA) with
+    | NumOk z => if LockTimeSpec.bip112_ok (c_tx_version c) (c_in_seq c) z then OOk s else OErr
+    | _ => OErr
+    end.
+Proof. exact LockTimeProofs.csv_is_bip112. Qed.
+Print Assumptions C05_csv_is_bip112.
+Theorem C05_locktime_operand_is_not_narrowed : forall t m z,
+  make_num t 5 m = NumOk z -> (- 2 ^ 39 < z < 2 ^ 39)%Z /\ to_int64 z = z.
+Proof. intros t m z H. split; [exact (LockTimeProofs.make_num_5_bound t m z H)|exact (LockTimeProofs.operand_to_int64 t m z H)]. Qed.
+Print Assumptions C05_locktime_operand_is_not_narrowed.
+Theorem C05_cltv_csv_are_nops_otherwise : forall so c p idx s,
+  p_real p = true ->
+  (p_val p = OP_CLTV /\ (has_flag c F_CLTV = false \/ after_genesis c = true)) \/
+  (p_val p = OP_CSV /\ (has_flag c F_CSV = false \/ after_genesis c = true)) ->
+  exec_handler so c p idx s = if has_flag c F_DISCOURAGE_NOPS then OErr else OOk s.
+Proof. exact LockTimeProofs.cltv_csv_are_nops_otherwise. Qed.
+Print Assumptions C05_cltv_csv_are_nops_otherwise.
+(** the hypotheses are satisfiable and the wide values matter: a 5-byte operand 2^32+100 against lock time 100 is
+    refused, version 2^31 is "at least 2" (whole engine, CLTV flag 8 / CSV flag 16) *)
+Example C05_locktime_examples :
+  fst (engine_execute no_sigops (mkExecInput [x51] [x05; x64; x00; x00; x00; x01; xb1] 8 true true 100 1 0)) = VErr /\
+  fst (engine_execute no_sigops (mkExecInput [x51] [x01; x64; xb1] 8 true true 100 1 0)) = VOk /\
+  fst (engine_execute no_sigops (mkExecInput [x51] [x55; xb2] 16 true true 0 2147483648 10)) = VOk /\
+  fst (engine_execute no_sigops (mkExecInput [x51] [x55; xb2] 16 true true 0 4294967295 10)) = VOk /\
+  fst (engine_execute no_sigops (mkExecInput [x51] [x55; xb2] 16 true true 0 1 10)) = VErr.
+Proof. vm_compute. repeat split; reflexivity. Qed.
+
+(** The flag set of an execution (round 8): Engine.Execute applies its options in order to a zero flag word and every
+    flag-carrying option (WithFlags, WithAfterGenesis, WithForkID, WithP2SH) ORs its word in (model/FlagOptions.v).
+    A flag is in force exactly when some option names it - no later option drops what an earlier one set; the order,
+    repetitions and the way the set is cut into words are immaterial; lists naming the same flags run every program
+    identically. *)
+Theorem C05_flag_in_force_iff_some_option_names_it : forall l n,
+  N.testbit (FlagOptions.flags_of_options l) n = existsb (FlagOptions.names_flag n) l.
+Proof. exact FlagOptions.flags_of_options_testbit. Qed.
+Print Assumptions C05_flag_in_force_iff_some_option_names_it.
+Theorem C05_flag_options_order_is_immaterial : forall l l',
+  Permutation.Permutation l l' -> FlagOptions.flags_of_options l = FlagOptions.flags_of_options l'.
+Proof. exact FlagOptions.flags_of_options_perm. Qed.
+Print Assumptions C05_flag_options_order_is_immaterial.
+Theorem C05_flag_options_concatenate_as_union : forall a b,
+  FlagOptions.flags_of_options (a ++ b) = N.lor (FlagOptions.flags_of_options a) (FlagOptions.flags_of_options b).
+Proof. exact FlagOptions.flags_of_options_app. Qed.
+Print Assumptions C05_flag_options_concatenate_as_union.
+Theorem C05_option_lists_naming_the_same_flags_run_alike : forall so l l' i,
+  (forall n, existsb (FlagOptions.names_flag n) l = existsb (FlagOptions.names_flag n) l') ->
+  FlagOptions.engine_execute_opts so l i = FlagOptions.engine_execute_opts so l' i.
+Proof. exact FlagOptions.options_same_names_same_run. Qed.
+Print Assumptions C05_option_lists_naming_the_same_flags_run_alike.
+Theorem C05_option_list_runs_as_its_union : forall so l w i,
+  FlagOptions.flags_of_options l = w ->
+  FlagOptions.engine_execute_opts so l i = engine_execute so (FlagOptions.with_flags i w).
+Proof. exact FlagOptions.options_run_as_their_union. Qed.
+Print Assumptions C05_option_list_runs_as_its_union.
+(** WithAfterGenesis() followed by WithFlags(MINIMALDATA): 'OP_1 | OP_RETURN' is accepted (the era flag is still in
+    force), and the non-minimal push 01 05 is refused (so is the later flag) *)
+Example C05_flag_option_examples :
+  FlagOptions.flags_of_options [FlagOptions.OptAfterGenesis; FlagOptions.OptFlags 256] = 16640%N /\
+  FlagOptions.flags_of_options [FlagOptions.OptFlags 256; FlagOptions.OptAfterGenesis] = 16640%N /\
+  fst (FlagOptions.engine_execute_opts no_sigops [FlagOptions.OptAfterGenesis; FlagOptions.OptFlags 256]
+         (mkExecInput [x51] [x6a] 0 false false 0 0 0)) = VOk /\
+  fst (FlagOptions.engine_execute_opts no_sigops [FlagOptions.OptFlags 256; FlagOptions.OptFlags 16384]
+         (mkExecInput [x01; x05] [x6a] 0 false false 0 0 0)) = VErr.
+Proof. vm_compute. repeat split; reflexivity. Qed.
